@@ -735,7 +735,16 @@ func (tr *trans) panicCheck(what string, cond Term, pos token.Pos) {
 	}
 	g := implies(tr.reach[tr.curB.Index], cond)
 	if tr.fc != nil && tr.fc.NoPanic {
-		tr.oblige("nopanic", what, g, pos)
+		kinds := tr.fc.Opts["nopanic_kinds"]
+		kind := what
+		if i := strings.Index(what, ":"); i >= 0 {
+			kind = what[:i]
+		}
+		if kinds == "" || strings.Contains(" "+kinds+" ", " "+kind+" ") {
+			tr.oblige("nopanic", what, g, pos)
+		} else {
+			tr.note("only run-time checks of kind {" + kinds + "} are obligations in " + tr.key + "; the others are assumed to hold")
+		}
 	}
 	tr.vc.assume(g)
 }
@@ -1183,6 +1192,42 @@ func (tr *trans) varAt(h *ssa.BasicBlock, name string, predIdx int, st State) (S
 				if x.Comment == name {
 					l := tr.locOf(x)
 					return env.goSV(tr.load(st, l), l.ty), true
+				}
+			}
+		}
+	}
+	return SV{}, false
+}
+
+// varAtEnd resolves a source variable at the end of block b (used by 'check' clauses at returns).
+func (tr *trans) varAtEnd(b *ssa.BasicBlock, name string, st State) (SV, bool) {
+	env := &Env{tr: tr, vc: tr.vc, errs: &tr.errs}
+	for d := b; d != nil; d = d.Idom() {
+		for i := len(d.Instrs) - 1; i >= 0; i-- {
+			if al, ok := d.Instrs[i].(*ssa.Alloc); ok && al.Comment == name {
+				if _, done := tr.vals[al]; done {
+					l := tr.locOf(al)
+					return env.goSV(tr.load(st, l), l.ty), true
+				}
+			}
+		}
+	}
+	for d := b; d != nil; d = d.Idom() {
+		for i := len(d.Instrs) - 1; i >= 0; i-- {
+			switch x := d.Instrs[i].(type) {
+			case *ssa.Phi:
+				if x.Comment == name {
+					return env.goSV(tr.val(x), x.Type()), true
+				}
+			case *ssa.DebugRef:
+				if obj := x.Object(); obj != nil && obj.Name() == name && !x.IsAddr {
+					if _, ok := tr.vals[x.X]; ok {
+						return env.goSV(tr.val(x.X), x.X.Type()), true
+					}
+					switch x.X.(type) {
+					case *ssa.Const, *ssa.Parameter:
+						return env.goSV(tr.val(x.X), x.X.Type()), true
+					}
 				}
 			}
 		}
